@@ -302,6 +302,12 @@ WCopyFrom ==
 TwoArrayFn(f, dv, sv) == CASE f = "scale" -> sv * 2 [] f = "scale1" -> sv [] f = "scale0" -> 0
                            [] f = "addto" -> dv + sv [] f = "func" -> sv + 1
 TwoArrayFns == {"scale", "scale1", "scale0", "addto", "func"}
+RECURSIVE SeqWrites(_, _, _, _, _)
+SeqWrites(st, v, u, f, j) ==
+    IF j > Len(v.offs) THEN <<>>
+    ELSE LET sv == IF u.sid = v.sid THEN st[u.offs[j] + 1] ELSE stores[u.sid][u.offs[j] + 1]
+             val == TwoArrayFn(f, st[v.offs[j] + 1], sv)
+         IN << <<v.offs[j], val>> >> \o SeqWrites([st EXCEPT ![v.offs[j] + 1] = val], v, u, f, j + 1)
 WTwoArray ==
     /\ ("twoarray" \in WriteOps \/ "twoview" \in WriteOps)     \* "twoview": only the live-view sources
     /\ \E vi \in WriteChoice : \E f \in TwoArrayFns :
@@ -312,12 +318,14 @@ WTwoArray ==
                    ws == [j \in 1..Len(v.offs) |->
                             <<v.offs[j], TwoArrayFn(f, stores[v.sid][v.offs[j] + 1], sv[j])>>]
                IN DoWrite(vi, ws, [op |-> "twoarray", fn |-> f, src |-> kind, vals |-> sv])
+       \* source = another live view (or the view itself), overlapping the destination in ANY way: the helpers are
+       \* DEFINED as the row-major element-by-element pass dest[i] := fn(dest[i], source[i]), so an element of the
+       \* source that the pass has already overwritten is read with its new value (SeqWrites) -- a snapshot of the
+       \* source taken beforehand gives a different answer exactly for the order-sensitive overlaps
        \/ \E ui \in DOMAIN views :
             LET u == views[ui] IN
-            /\ u.shape = v.shape /\ OrderInsensitive(v, u)
-            /\ LET ws == [j \in 1..Len(v.offs) |->
-                           <<v.offs[j], TwoArrayFn(f, stores[v.sid][v.offs[j] + 1], stores[u.sid][u.offs[j] + 1])>>]
-               IN DoWrite(vi, ws, [op |-> "twoview", fn |-> f, u |-> ui])
+            /\ u.shape = v.shape
+            /\ DoWrite(vi, SeqWrites(stores[v.sid], v, u, f, 1), [op |-> "twoview", fn |-> f, u |-> ui])
 
 Write == /\ stores # <<>> /\ ~done /\ nW < MaxWrites
          /\ (WSet \/ WApply \/ WApplySlice \/ WCopyFrom \/ WTwoArray)
